@@ -18,6 +18,16 @@ DEFAULT_RULE = ("cases come from harness/src/gen.rs (one SplitMix64 stream seede
                 "(at least one database/shell/sleep event, or a failure verdict)")
 
 PROPS = {
+    "C04": {
+        "runs": [
+            {"profile": "c04", "n_quick": 30000, "n_thorough": 600000, "oracle": "c04", "nontrivial": "parse"},
+            {"profile": "c04enum", "n_quick": 0, "n_thorough": 0, "oracle": "c04", "nontrivial": "parse", "exhaustive": True},
+        ],
+        "observable": "ok + all parsed records | err kind line | panic (catch_unwind around parse_with_name)",
+        "exhaustive": True,
+        "explanation": "exhaustive: every header line of <= 3 (quick) / <= 4 (thorough) tokens over a 36-token directive vocabulary + 4 / 5 tokens over a 16-token retry/statement/query vocabulary with a strict column type, each followed by one SQL line; random: valid scripts with one malformed line injected at a record boundary (catalogue of 52 malformed headers), token soups over directive fragments incl. CR, VT, NBSP, U+2028, astral characters, line/token/byte mutations of rendered valid scripts",
+        "assumptions": ["scripts of fewer than 2^32 lines (`num as u32 + 1`)"],
+    },
     "C01": {
         "runs": [{"profile": "c01", "n_quick": 20000, "n_thorough": 500000}],
         "observable": "verdict, failure kind and the reported actual/err payload of Runner::run_multi on a one-record script",
